@@ -282,10 +282,38 @@ class Gen:
                 self.pat('idx', d - 1) if r.random() < 0.5 else self.c(['i', r.choice([1, 1, 2, -1, 0])]),
                 r.choice([0, 0, 1, 2, -1, -3, 6]), r.random() < 0.6, self.rep()]
 
+    def directed(self):
+        """Rare shapes that deserve a steady share of the cases."""
+        r = self.r
+        if r.random() < 0.5:
+            # n-ary operator with MIXED extra arguments (a number and a pattern), embedded in Pseq / Pn
+            lo = r.randint(-3, 3)
+            his = [lo + r.randint(0, 6) for _ in range(r.randint(1, 4))]
+            src = ['seq', [self.c(['i', r.randint(-9, 9)]) for _ in range(r.randint(2, 5))], 1, 0]
+            hi = ['seq', [self.c(['i', h]) for h in his], r.choice([1, 'inf', 'inf']), 0]
+            lo = self.c(['i', lo])
+            inner = ['narop', r.choice(['clip', 'wrap']), src] + ([lo, hi] if r.random() < 0.7 else [['seq', [lo], 'inf', 0], self.c(['i', max(his)])])
+            return ['seq', [inner, self.c(['i', 0])], 2, 0] if r.random() < 0.5 else ['pn', inner, 2]
+        # non-wrapping Pslide whose segments tile the list exactly (step >= length), repeats left over
+        ln = r.randint(1, 3)
+        k = r.randint(1, 3)
+        size = ln * k
+        step = r.choice([ln, ln, size, ln + size])
+        sl = ['slide', [self.c(['i', i + 1]) for i in range(size)], self.c(['i', ln]), self.c(['i', step]),
+              0, False, k + r.randint(1, 4)]
+        x = r.random()
+        if x < 0.4:
+            return sl
+        if x < 0.7:
+            return ['seq', [sl, self.c(['i', 0])], 2, 0]
+        return ['binop', 'mul', sl, self.c(['i', 10]), 'op']
+
     def pat(self, kind, d):
         r = self.r
         if d <= 0:
             return self.leaf(kind)
+        if kind == 'num' and r.random() < 0.02:
+            return self.directed()
         if r.random() < 0.03:          # malformed stream: wrong kind of operand
             kind = r.choice(['num', 'list', 'bool', 'idx', 'cnt', 'tup'])
         if kind in ('idx', 'cnt', 'int'):
